@@ -10,6 +10,7 @@ from .state import ExcInfo, Obligation, Place, State
 from .types import snth, sunit
 from .types import (TBool, TFun, TInt, TMap, TNone, TOpaque, TOpt, TRef, TSeq, TStr,
                     TTuple, TUnion, join, opt, parse_type)
+from .values import PathEnds
 from .values import (NONE, SV, OutsideSubset, TBottom, TypeMismatch, box, coerce,
                      default_term, empty_map, eq_term, fresh, is_bottom_container,
                      merge, mk_bool, mk_int, mk_str, seq_literal, unbox)
@@ -46,14 +47,67 @@ def cond_fingerprint(node):
     return ast.dump(R().visit(copy.deepcopy(node)))
 
 
-def _top_foralls(t):
+def skolemize(claim):
+    """Replace universally quantified variables in positive position of a claim by
+    fresh constants (proving P(c) for an arbitrary c proves forall x. P(x))."""
+    skolems = []
+
+    def go(t):
+        if z3.is_quantifier(t) and t.is_forall():
+            cs = []
+            for i in range(t.num_vars()):
+                c = z3.Const('sk!%d_%s' % (len(skolems), t.var_name(i)), t.var_sort(i))
+                skolems.append(c)
+                cs.append(c)
+            # de Bruijn: var 0 is the LAST bound variable
+            return go(z3.substitute_vars(t.body(), *reversed(cs)))
+        if z3.is_and(t):
+            return z3.And([go(c) for c in t.children()])
+        if z3.is_implies(t):
+            return z3.Implies(t.arg(0), go(t.arg(1)))
+        return t
+    try:
+        return go(claim), skolems
+    except Exception:
+        return claim, []
+
+
+_qcache = {}
+
+
+def _has_quantifier(t):
+    k = t.get_id()
+    if k in _qcache:
+        return _qcache[k]
+    todo = [t]
+    seen = set()
+    res = False
+    while todo:
+        x = todo.pop()
+        if x.get_id() in seen:
+            continue
+        seen.add(x.get_id())
+        if z3.is_quantifier(x):
+            res = True
+            break
+        if z3.is_app(x):
+            todo.extend(x.children())
+    _qcache[k] = res
+    return res
+
+
+def _top_foralls(t, guards=()):
+    """(guards, forall) pairs for universally quantified formulas in positive position:
+    at top level, inside conjunctions and in the consequent of implications."""
     if z3.is_quantifier(t) and t.is_forall():
-        return [t]
+        return [(guards, t)]
     if z3.is_and(t):
         out = []
         for c in t.children():
-            out.extend(_top_foralls(c))
+            out.extend(_top_foralls(c, guards))
         return out
+    if z3.is_implies(t):
+        return _top_foralls(t.arg(1), guards + (t.arg(0),))
     return []
 
 
@@ -69,43 +123,78 @@ class ExprMixin:
         if self.spec_depth > 0 or self.in_contract:
             # inside specification code: no obligations, totality is the spec author's
             return
-        ob = Obligation(self.fn_name, kind, label, st.pc + st.facts + self.instantiate_foralls(st), claim, st.trail,
+        claim0 = claim
+        claim, skolems = skolemize(claim)
+        inst = self.instantiate_foralls(st, skolems)
+        ob = Obligation(self.fn_name, kind, label, st.pc + st.facts + inst, claim, st.trail,
                         carries=carries, info=info,
                         lineno=getattr(node, 'lineno', None))
         self.obls.append(ob)
-        st.assume(claim)
+        st.assume(claim0)
 
-    def instantiate_foralls(self, st):
+    def instantiate_foralls(self, st, skolems=()):
         """Instances of the universally quantified assumptions (class / loop invariants over
         container indices) at the integer locals of the current path: the sequence solvers
         rarely find them by themselves.  Sound: instances of assumed formulas."""
-        cands = []
+        ints, strs = [], []
         for name, v in st.env.items():
             if isinstance(v, SV) and v.ty == TInt and not z3.is_int_value(v.t):
-                cands.append(v.t)
-        if not cands:
+                ints.append(v.t)
+            elif isinstance(v, SV) and v.ty == TStr and not z3.is_string_value(v.t):
+                strs.append(v.t)
+        ints = ints[:6]
+        strs = strs[:5]
+        for s in skolems:
+            if s.sort() == z3.IntSort():
+                ints.append(s)
+            elif s.sort() == z3.StringSort():
+                strs.append(s)
+        if not ints and not strs:
             return ()
+        isort, ssort = z3.IntSort(), z3.StringSort()
+
+        def pool(sort, wide):
+            if sort == isort:
+                return [x for c in ints for x in ((c, c + 1, c - 1) if wide else (c,))]
+            if sort == ssort:
+                return strs
+            return None
         out = []
+        def guarded(gs, body):
+            return z3.Implies(z3.And(list(gs)), body) if gs else body
         for t in st.pc:
-            for q in _top_foralls(t):
-                if q.num_vars() != 1 or q.var_sort(0) != z3.IntSort():
-                    continue
-                for c in cands[:6]:
-                    for inst in (c, c + 1, c - 1):
-                        out.append(z3.substitute_vars(q.body(), inst))
+            for gs, q in _top_foralls(t):
+                n = q.num_vars()
+                if n == 1:
+                    p = pool(q.var_sort(0), True)
+                    for inst in (p or ()):
+                        out.append(guarded(gs, z3.substitute_vars(q.body(), inst)))
+                elif n == 2:
+                    # substitute_vars: Var(0) is the LAST declared variable
+                    pa = pool(q.var_sort(1), False)      # Var(0) = second declared variable
+                    pb = pool(q.var_sort(0), False)      # Var(1) = first declared variable
+                    if pa is None or pb is None:
+                        continue
+                    for a in pa[:8]:
+                        for b in pb[:8]:
+                            if not z3.eq(a, b):
+                                out.append(guarded(gs, z3.substitute_vars(q.body(), a, b)))
         return tuple(out)
 
-    def feasible(self, st, extra=None):
+    def feasible(self, st, extra=None, timeout_ms=None):
         """Cheap satisfiability check of the path condition (unknown = feasible)."""
         if self.spec_depth > 0:
             return True
-        terms = list(st.pc) + list(st.facts)
+        # quantified assumptions are left out: they only make the check slower (dropping
+        # assumptions can only make fewer paths look infeasible - sound for pruning)
+        terms = [t for t in list(st.pc) + list(st.facts) if not _has_quantifier(t)]
+        terms.extend(self.instantiate_foralls(st))
         if extra is not None:
             terms.append(extra)
         if not terms:
             return True
         s = z3.Solver()
-        s.set('timeout', self.feas_timeout_ms)
+        s.set('timeout', timeout_ms or self.feas_timeout_ms)
         s.add(*terms)
         self.feas_checks += 1
         return s.check() != z3.unsat
@@ -371,7 +460,21 @@ class ExprMixin:
     # ------------------------------------------------------------------
     # maps
     # ------------------------------------------------------------------
+    def map_key(self, st, m, k, node, what='dict key'):
+        """Key usable with map m: an Optional key where the map has plain keys must not be None
+        (a None key would simply be a different key in Python; the models here have no such keys)."""
+        if isinstance(k.ty, TOpt) and not isinstance(m.ty.k, TOpt) and m.ty.k is not TBottom:
+            self.oblige(st, z3.Not(k.ty.is_none(k.t)), 'safety', 'None-key', node=node,
+                        info={'claim': '%s is not None' % what})
+            return unbox(k.ty.inner, k.ty.val(k.t))
+        return k
+
     def map_has(self, m, k, st=None):
+        if isinstance(k.ty, TOpt) and not isinstance(m.ty.k, TOpt) and m.ty.k is not TBottom:
+            inner = unbox(k.ty.inner, k.ty.val(k.t))
+            return z3.And(z3.Not(k.ty.is_none(k.t)), self.map_has(m, inner, st))
+        if k.ty == TNone and not isinstance(m.ty.k, TOpt):
+            return z3.BoolVal(False)
         kk = coerce(k, m.ty.k, self.classes)
         keys = m.ty.keys(m.t)
         u = sunit(m.ty.k, box(kk))
@@ -853,6 +956,9 @@ class ExprMixin:
         return eq_term(l, r, self.classes)
 
     def contains(self, st, container, item, node):
+        if isinstance(container.ty, TUnion):
+            container = self.narrow_union(st, container, node, 'in',
+                                          lambda t: isinstance(t, (TSeq, TMap)) or t == TStr)
         ty = container.ty
         if ty == TStr:
             if item.ty != TStr:
@@ -903,7 +1009,7 @@ class ExprMixin:
         if v.ty == TNone:
             self.oblige(st, False, 'safety', 'None-' + what, node=node,
                         info={'claim': 'receiver of %s is not None' % what})
-            raise OutsideSubset('attribute of None')
+            raise PathEnds('attribute of None')
         return v
 
     def getattr_value(self, st, base, attr, node):
@@ -953,9 +1059,39 @@ class ExprMixin:
                                 info={'claim': 'object is a %s, which has method %s (AttributeError)' % (tops[0], attr)})
                     return Entity('method', attr, SV(TRef(tops[0]), base.t))
             raise OutsideSubset('no field or method %s on %s' % (attr, ty.cls))
-        if ty == TStr or isinstance(ty, (TSeq, TMap, TTuple, TUnion)):
+        if isinstance(ty, TUnion):
+            nb = self.narrow_union(st, base, node, 'attribute ' + attr,
+                                   lambda t: isinstance(t, TRef) and self.has_attr(t.cls, attr))
+            return self.getattr_value(st, nb, attr, node)
+        if ty == TStr or isinstance(ty, (TSeq, TMap, TTuple)):
             return Entity('method', attr, base)
         raise OutsideSubset('attribute %s on %s' % (attr, ty))
+
+    def has_attr(self, cls, attr):
+        if self.classes.field(cls, attr)[0] is not None:
+            return True
+        if self.classes.find_method(cls, attr)[1] is not None or self.classes.contract_for(cls, attr) is not None:
+            return True
+        return False
+
+    def narrow_union(self, st, v, node, what, pred):
+        """The unique FEASIBLE alternative of a union value that satisfies pred, with a safety
+        obligation that the value really is of that alternative."""
+        ty = v.ty
+        cands = [(tag, t) for tag, t in ty.alts if t != TNone and pred(t)]
+        if len(cands) > 1:
+            feas = []
+            for tag, t in cands:
+                if self.spec_depth > 0 or self.feasible(st, ty.is_tag(tag, v.t), timeout_ms=4000):
+                    feas.append((tag, t))
+            if len(feas) >= 1:
+                cands = feas
+        if len(cands) != 1:
+            raise OutsideSubset('%s on a union value with %d fitting alternatives' % (what, len(cands)))
+        tag, t = cands[0]
+        self.oblige(st, ty.is_tag(tag, v.t), 'safety', 'kind-for-' + what.split()[0], node=node,
+                    info={'claim': 'value has the kind needed for %s (AttributeError / TypeError)' % what})
+        return unbox(t, ty.get(tag, v.t))
 
     def entity_attr(self, st, ent, attr, node):
         if ent.kind == 'module':
@@ -1022,6 +1158,8 @@ class ExprMixin:
         base = self.unwrap_opt(st, self.need_value(base), node, 'slice')
         lo_t = self.int_term(st, lo, node, 'slice-bound')
         hi_t = self.int_term(st, hi, node, 'slice-bound')
+        if isinstance(base.ty, TUnion):
+            base = self.narrow_union(st, base, node, 'slice', lambda t: isinstance(t, TSeq) or t == TStr)
         if base.ty == TStr or isinstance(base.ty, TSeq):
             if isinstance(base.ty, TSeq) and base.ty.elem is TBottom:
                 return base
@@ -1047,6 +1185,11 @@ class ExprMixin:
     def do_index_(self, st, base, idx, node):
         base = self.unwrap_opt(st, self.need_value(base), node, 'subscript')
         idx = self.need_value(idx)
+        if isinstance(base.ty, TUnion):
+            want_map = idx.ty == TStr or (isinstance(idx.ty, TOpt) and idx.ty.inner == TStr)
+            base = self.narrow_union(st, base, node, 'subscript',
+                                     (lambda t: isinstance(t, TMap)) if want_map else
+                                     (lambda t: isinstance(t, TSeq) or t == TStr))
         ty = base.ty
         if ty == TStr:
             i = self.int_term(st, idx, node, 'index')
@@ -1094,6 +1237,7 @@ class ExprMixin:
     def map_lookup(self, st, m, key, node):
         """m[key]: KeyError when absent.  Inside try/except KeyError the
         exception path is a real fork; elsewhere it is a safety obligation."""
+        key = self.map_key(st, m, key, node)
         has = self.map_has(m, key)
         if self.catches(st, 'builtin:KeyError'):
             outs = []
